@@ -38,7 +38,7 @@ from vmc.runner import Stats
 PROPERTY = 'C10'
 LEVEL = 'fault_enumeration'
 
-HARNESSES = ('source', 'pipeline')
+HARNESSES = ('source', 'pipeline', 'threads')
 NUM_THREADS = (0,)     # threaded variants: to be added under vmc.sched (E1)
 
 TRANSPORTS = ('object', 'pickle', 'pickler')
@@ -757,13 +757,14 @@ def run(ctx):
       f'drained; pipelines: n<={n_pipe}, shapes {list(SHAPES)} over unsharded/'
       'sharded(+offset)/nested/two-sub-sequence/ShardedIterable sources and '
       f'make(shard=), same histories with state as {list(pipe_transports)}, '
-      f'restored on the iterator/a fresh make().iterate(){four}; num_threads=0 '
-      'only; non-trivial = the uninterrupted run delivers >= 1 element; '
+      f'restored on the iterator/a fresh make().iterate(){four}; num_threads=0; '
+      'plus 42 threaded configurations (E1, num_threads 1-2); non-trivial = the uninterrupted run delivers >= 1 element; '
       'distinct = distinct (source, pipeline shape, cut vector, transport, '
       'restore route, continue flag)')
   ctx.assumptions += [
-      'num_threads > 0 is not enumerated by this check (needs the '
-      'deterministic scheduler)',
+      'num_threads in {1, 2}: 42 pipeline configurations (4 records, cut 0-4, '
+      'shardable / round-robin source, with and without aggregate) under the '
+      'deterministic scheduler, bounded per configuration (cap reported)',
       'the uninterrupted run of the same configuration is the oracle; it is '
       'cross-checked against a list comprehension for pipelines',
       'offsets larger than the shard are outside the quantifier',
@@ -787,6 +788,32 @@ def run(ctx):
       units += [(u, (4, 4), pipe_transports) for u in enums.chunks(
           ctx.shuffled(pipeline_specs(n_pipe4, True)), 64)]
     ctx.pmap(_pipeline_unit, [u + (i == 0,) for i, u in enumerate(units)])
+  if 'threads' in only:
+    from vmc import explorer
+    tc = threaded_configs(quick)
+    ctx.notes['threaded_configurations'] = len(tc)
+    # num_threads in {1, 2}: every schedule with free switches at blocking
+    # points (thorough: <= 1 preemption) of consume-cut / state / from_state /
+    # drain, under the deterministic scheduler
+    explorer.explore_all(ctx, 'vmc.ckharness', tc,
+                         pre_bound=0 if quick else 1, split=0, hb_cache=True,
+                         max_execs=400 if quick else 5000)
+
+
+def threaded_configs(quick):
+  """Pipelines with worker threads under the deterministic scheduler (E1)."""
+  out = []
+  for threads in (1, 2):
+    for source in ('seq', 'iter'):
+      for cut in (0, 1, 2, 3, 4):
+        for agg in (None, 'bag'):
+          out.append(('checkpoint_threaded',
+                      dict(n=4, threads=threads, source=source, cut=cut,
+                           agg=agg)))
+  out.append(('checkpoint_threaded', dict(n=4, threads=1, cut=1, pickled=True)))
+  out.append(('checkpoint_threaded', dict(n=4, threads=1, cut=2, ops=['aw'],
+                                          agg='bag', cuts=[1])))
+  return out
 
 
 def _tup(x):
